@@ -149,27 +149,28 @@ func (c *Cluster) NodeCrashed(id ServerID) {
 
 // Raft is one member.
 type Raft struct {
-	c         *Cluster
-	id        ServerID
-	simNode   int
-	fsm       FSM
-	logs      LogStore
-	stable    StableStore
-	snaps     SnapshotStore
-	conf      *Config
-	applied   uint64 // last index applied to the FSM
-	commit    uint64 // highest index this node knows to be committed
-	granting  bool
-	shutdown  bool
-	dead      bool
-	applier   *simrt.Task
-	notifyQ   []bool
-	notifier  *simrt.Task
-	resp      map[uint64]interface{}
-	snapReq   bool
-	snapBusy  bool
-	trailing  uint64
-	Snapshots int
+	c           *Cluster
+	id          ServerID
+	simNode     int
+	fsm         FSM
+	logs        LogStore
+	stable      StableStore
+	snaps       SnapshotStore
+	conf        *Config
+	applied     uint64 // last index applied to the FSM
+	commit      uint64 // highest index this node knows to be committed
+	granting    bool
+	shutdown    bool
+	dead        bool
+	applier     *simrt.Task
+	notifyQ     []bool
+	notifier    *simrt.Task
+	resp        map[uint64]interface{}
+	snapReq     bool
+	snapBusy    bool
+	applierDone bool
+	trailing    uint64
+	Snapshots   int
 	// LagMax bounds how far this node's knowledge of the commit index trails, in scheduling terms it is
 	// unbounded: every hand-over is its own event.
 }
@@ -198,6 +199,7 @@ func NewRaft(conf *Config, fsm FSM, logs LogStore, stable StableStore, snaps Sna
 		if err := fsm.Restore(rc); err != nil {
 			return nil, fmt.Errorf("failed to restore snapshot %s: %v", m.ID, err)
 		}
+		c.Sim.Logf("raft: %s restored the snapshot at index %d", conf.LocalID, m.Index)
 		r.applied = m.Index
 		r.commit = m.Index
 		break
@@ -298,6 +300,7 @@ func (r *Raft) scheduleGrant() {
 }
 
 func (r *Raft) applyLoop() {
+	defer func() { r.applierDone = true }()
 	t := simrt.Cur()
 	for {
 		for r.applied >= r.commit && !r.shutdown && !r.snapReq {
@@ -369,6 +372,7 @@ func (r *Raft) takeSnapshot() {
 		snap.Release()
 		r.Snapshots++
 		r.c.Sim.Count("fault.raft_snapshot")
+		r.c.Sim.Logf("raft: %s persisted a snapshot at index %d (trailing %d)", r.id, idx, trailing)
 		// compact the log: keep `trailing` entries before the snapshot index
 		first, _ := r.logs.FirstIndex()
 		if first > 0 && idx > trailing && idx-trailing >= first {
@@ -595,7 +599,19 @@ func (r *Raft) Shutdown() Future {
 			r.c.maybeElect()
 		}
 	}
-	return errFuture{}
+	return shutdownFuture{r}
+}
+
+// shutdownFuture waits, like hashicorp/raft's, until the member's goroutines are gone: no FSM call
+// (Apply, Snapshot, Persist) is in progress or starts once Error has returned.
+type shutdownFuture struct{ r *Raft }
+
+func (f shutdownFuture) Error() error {
+	r := f.r
+	if t := simrt.Cur(); t != nil && t != r.applier {
+		simrt.WaitUntil("raft-shutdown", func() bool { return (r.applierDone || r.applier == nil) && !r.snapBusy })
+	}
+	return nil
 }
 
 func (r *Raft) Snapshot() Future { r.RequestSnapshot(0); return errFuture{} }
